@@ -12,12 +12,17 @@ import (
 	"strconv"
 	"strings"
 	"sync"
+	"sync/atomic"
 	"time"
 
 	"github.com/cybergarage/go-redis/redis"
 	"github.com/cybergarage/go-redis/redis/proto"
 	"github.com/cybergarage/go-tracing/tracer"
 )
+
+// lclock is a logical clock shared by all connections of the process: invocation and response events of the
+// histories judged for linearizability (C16) are stamped from it.
+var lclock int64
 
 // ---------------------------------------------------------------- event log (one per connection)
 type evlog struct {
@@ -126,6 +131,7 @@ func (c *pipeConn) Write(p []byte) (int, error) {
 		return 0, errors.New("write: broken pipe")
 	}
 	c.log.add(fmt.Sprintf("W@%d:%s", c.delivered, hx(p)))
+	c.log.add(fmt.Sprintf("T:%d", atomic.AddInt64(&lclock, 1))) // logical time of the response
 	c.poke()
 	return len(p), nil
 }
